@@ -208,4 +208,23 @@ theorem arc_decode_returns_routes (I : ArcInst) (hw : WF I) (hpos : PosTimes I.g
   simp only [selected_vecList I x hx]
   rw [hgo, List.nil_append]
 
+/-! ## non-vacuity -/
+
+/-- the two-vehicle vector of `nv_complete` (C05b), literally: `d@0 → a@2 → d@6` and `d@0 → b@6 → d@8` -/
+def nv_x2 : Vec := vecOf [1, 1, 0, 0, 0, 0, 1, 1, 0]
+theorem nv_x2_bin : IsBin nv_I.data.n nv_x2 := by unfold IsBin; decide +kernel
+theorem nv_x2_feas : nv_I.data.feasibleB nv_x2 = true := by decide +kernel
+
+/-- all hypotheses of `arc_decode_asserts` and `arc_decode_returns_routes` hold (`nv_wf`, `nv_pos` from C05 / C05b) -/
+example : nv_I.decodeAsserts (vecList nv_I nv_x2) = true := arc_decode_asserts nv_I nv_wf nv_x2 nv_x2_bin nv_x2_feas
+
+example : ∃ routes : List (List ATup), (∀ r ∈ routes, IsDepotRoute r ∧ ∀ u ∈ r, u ∈ sel nv_I nv_x2) ∧
+    routes.flatten.Perm (sel nv_I nv_x2) ∧ nv_I.decode (vecList nv_I nv_x2) = routes.map stopsOf :=
+  arc_decode_returns_routes nv_I nv_wf nv_pos nv_x2 nv_x2_bin nv_x2_feas
+
+/-- … and by evaluation the decoder returns the stop lists of `nv_routes` (both vehicles leave the depot at 0) -/
+example : nv_I.decode (vecList nv_I nv_x2) = [[(0, 0), (1, 2), (0, 6)], [(0, 0), (2, 6), (0, 8)]] ∧
+    nv_I.decode (vecList nv_I nv_x2) = nv_routes.map stopsOf ∧
+    nv_I.decode (vecList nv_I nv_x) = [[(0, 0), (1, 2), (2, 6), (0, 8)]] := by decide +kernel
+
 end Vrp.C05
